@@ -619,6 +619,11 @@ func toSubtitlesVTT(d vttDoc) *astisub.Subtitles {
 		s.Regions[rg.ID] = &astisub.Region{ID: rg.ID, InlineStyle: &astisub.StyleAttributes{
 			WebVTTLines: rg.Lines, WebVTTRegionAnchor: rg.RegionAnchor, WebVTTScroll: rg.Scroll, WebVTTViewportAnchor: rg.ViewportAnchor, WebVTTWidth: rg.Width,
 		}}
+		if r := s.Regions[rg.ID]; len(rg.ID)%2 == 1 && (rg.Lines != 0 || rg.RegionAnchor != "" || rg.Width != "") {
+			// some settings come from the region's style, the others are the region's own: each falls back on its own
+			r.Style = &astisub.Style{ID: "region-settings-" + rg.ID, InlineStyle: &astisub.StyleAttributes{WebVTTLines: rg.Lines, WebVTTRegionAnchor: rg.RegionAnchor, WebVTTWidth: rg.Width}}
+			r.InlineStyle.WebVTTLines, r.InlineStyle.WebVTTRegionAnchor, r.InlineStyle.WebVTTWidth = 0, "", ""
+		}
 	}
 	for _, c := range d.Cues {
 		it := &astisub.Item{StartAt: time.Duration(c.Start) * time.Millisecond, EndAt: time.Duration(c.End) * time.Millisecond, Index: c.ID}
@@ -722,7 +727,7 @@ func genVTTDoc(t *rapid.T, write bool) vttDoc {
 		d.Styles = append(d.Styles, blk)
 	}
 	nr := rapid.SampledFrom([]int{0, 0, 1, 2, 3}).Draw(t, "regions")
-	rids := []string{"r1", "fred", "bill", "R-2", "a"}
+	rids := []string{"Top", "fred", "top", "R-2", "a"} // identifiers are case-sensitive: Top and top are two regions
 	for i := 0; i < nr; i++ {
 		rg := vttRegion{ID: rids[i]}
 		m := rapid.IntRange(0, 31).Draw(t, "rkeys")
